@@ -52,7 +52,7 @@ SPEC = {
         "programs never delete a monitor that an eligibility monitor of the same registration reads (a user-induced break, not "
         "part of the property)",
         "layers: connection / neuron names are per layer; the model's alias search has a switch for the 'other layer' test "
-        "(LAYER_FILTER in this file: False = the code as it stands, which never skips; True = repaired)",
+        "(LAYER_FILTER in this file: True = after repair D36, the default; False = the old vacuous test)",
         "D18 and its single-trainer form (the same cell registered twice, one registration being MSTDPET) are a known finding",
     ],
 }
@@ -60,8 +60,8 @@ DRIVER = "drivers/C15.lean"
 ERRS = {"RuntimeError", "ValueError", "TypeError", "AttributeError", "IndexError", "KeyError"}
 KNOWN_D18 = "C15:second-trainer-redirects-cell-monitors"
 KEY_XL = "C15:cross-layer-alias"
-# the model's alias search: False = `Observable.add_monitor` as it stands (the "other layer" test never skips),
-# True = that test repaired.  Flip to True once /repo carries the repair.
+# the model's alias search: True = `Observable.add_monitor` after the repair D36 (observables of another layer are
+# skipped), False = the old rule (the test never skipped) — only for experiments
 LAYER_FILTER = True
 MNAMES = ["trace_post", "spike_post", "trace_pre", "spike_pre", "elig_post", "elig_pre", "u0", "u1"]
 SELS = {"n0": "neuron.spike", "n1": "neuron.voltage", "c0": "connection.synspike", "c1": "connection.syncurrent",
@@ -492,7 +492,7 @@ TOPOS2 = ["0:0:0,1:0:0", "0:0:0,0:1:0,1:0:0", "0:0:0,1:0:0,1:0:1", "0:0:0,0:1:0,
 
 
 def begin_line(topo):
-    return f"begin {topo}" + (" T" if LAYER_FILTER else "")
+    return f"begin {topo} " + ("T" if LAYER_FILTER else "F")
 
 
 def random_program(rng, prone: bool, maxlen=40, two_layers=False):
